@@ -150,13 +150,13 @@ def pool_cases(tasks, res, timeout=240, hang_key=None):
     good = []
     n_to = 0
     for t, r in zip(tasks, outs):
-        if r is None or r.get("timeout"):
+        if r is None or (isinstance(r, dict) and r.get("timeout")):
             n_to += 1
             res.count("worker_timeouts")
             if hang_key:
                 res.fail(hang_key, f"case did not finish within {t.get('timeout', timeout)} s (a lifecycle call did not return?): {json.dumps(t['args'])[:200]}", dict(task=t))
             continue
-        if "error" in r:
+        if isinstance(r, dict) and "error" in r:
             res.count("worker_errors")
             res.notes.append(f"worker error on {t['args']}: {r['error'][:300]}")
             res.fail("exception", f"{r['error'][:300]} (task {json.dumps(t['args'])[:160]})", dict(task=t, traceback=r.get("traceback", "")[-1500:]))
